@@ -373,7 +373,7 @@ class Ctx:
 
     # -- validation
     def validate(self, trace_module, trace_path, keyfn, cfg=None, timeout=900, extra_files=None,
-                 defines=None, describe=None, require_events=1):
+                 defines=None, describe=None, require_events=1, only=None):
         """keyfn(event_dict, inv_name) -> stable known-findings key for the rejecting event."""
         lines = open(trace_path).read().splitlines()
         if len(lines) < require_events:
@@ -393,6 +393,10 @@ class Ctx:
                          (trace_module, v.consumed + 1, json.dumps(ev)[:400]), trace_path, v.consumed + 1, ev)
         for b in v.bad:
             l, inv = b[0], b[1]
+            if only and not any(inv.startswith(p) for p in only):
+                self.extra.setdefault("other_property_rejections_ignored", {})
+                self.extra["other_property_rejections_ignored"][inv] = self.extra["other_property_rejections_ignored"].get(inv, 0) + 1
+                continue
             ev = json.loads(lines[l - 1]) if 1 <= l <= len(lines) else {}
             key = keyfn(ev, inv)
             what = (describe(ev, inv) if describe else "%s fails at line %d: %s" % (inv, l, json.dumps(ev)[:400]))
